@@ -241,8 +241,8 @@ def main(argv: List[str]) -> int:
     texts = [x for x in texts if not is_layout(x)]
     r = core.rng('c13')
     if core.tier() == 'quick':
-        short = [x for x in texts if len(x[1]) <= 3]
-        longer = [x for x in texts if len(x[1]) > 3]
+        short = [x for x in texts if len(x[1]) <= 3 or len(x[1]) > maxlen]      # (longer than the bound: the hand-picked extras)
+        longer = [x for x in texts if 3 < len(x[1]) <= maxlen]
         texts = short + r.sample(longer, min(len(longer), 700))
         layout_sites = ['table_note', 'sticky_note', 'column_note']
     else:
